@@ -10,7 +10,10 @@ import json, os, re, shutil, subprocess, sys, tempfile, time
 
 seed, prop, src = sys.argv[1:4]
 checks = sys.argv[4:] or [prop]
-out = os.path.join(src, "OUT")
+out = src if os.path.exists(os.path.join(src, "patch.diff")) else os.path.join(src, "OUT")
+src = src.rstrip("/")
+if out == src:                      # .../sc_Cnn/OUT/A  -> worktree root is two levels up
+    src = os.path.dirname(os.path.dirname(src)) if os.path.basename(os.path.dirname(src)) == "OUT" else os.path.dirname(src)
 dst = "/verif/seeded/%s" % seed
 os.makedirs(dst, exist_ok=True)
 for f in ("patch.diff", "demo.py", "notes.md"):
@@ -29,6 +32,9 @@ try:
     src_demo = src_demo.replace(src.rstrip("/"), wt)
     os.makedirs(os.path.join(wt, "OUT"), exist_ok=True)
     open(os.path.join(wt, "OUT", "demo.py"), "w").write(src_demo)
+    for extra in os.listdir(out):       # helper modules the demo may import
+        if extra.endswith(".py") and extra != "demo.py":
+            shutil.copy(os.path.join(out, extra), os.path.join(wt, "OUT", extra))
     env = dict(os.environ, PYTHONPATH=wt, PYTHONDONTWRITEBYTECODE="1")
     r = sh("cd %s && /venv/bin/python OUT/demo.py" % wt, env=env, timeout=600)
     meta["demo_clean"] = {"rc": r.returncode, "tail": (r.stdout + r.stderr)[-300:]}
